@@ -131,7 +131,7 @@ def _vm_goal(c, o):
         man = None
         if kind[0] in "Mm":
             man, kind = kind[0] == "M", kind[1:]
-        bk = {"N": "KNone", "R": "KReplay", "O": "KOneShot"}.get(kind[0]) or "(KGetBodyErr %s%%nat)" % kind[1:]
+        bk = {"N": "KNone", "B": "KNoBody", "R": "KReplay", "O": "KOneShot"}.get(kind[0]) or "(KGetBodyErr %s%%nat)" % kind[1:]
         bd = "(mkBody %s %s)" % (bk, _bytes(data))
         if man is not None:
             bd = "(manifest_push_body %s %s)" % ("true" if man else "false", bd)
